@@ -222,6 +222,14 @@ def handlePhys (toks : List String) : String :=
       | none, some r :: _ => s!"d={toHex (fsbCanon w r.1 r.2)} n={showNulls r.2}"
       | none, _ => "PANIC"
     | _, _, _, _ => "bad-op"
+  | ["lconcat", _kind, _var, toks] =>
+    match (toks.splitOn ";").mapM parseBArr with
+    | some arrs =>
+      let spec := showList showCell (concatSpec (arrs.map BArr.decode))
+      -- a single input is returned as is (`concat` of one array); the coalescer path and concat_batches agree row-wise
+      let out := concatLists arrs
+      if showList showCell out.decode ≠ spec then mismatch "lconcat" (showList showCell out.decode) spec else spec
+    | none => "bad-op"
   | ["slices", _moff, mask] =>
     match parseMask mask with
     | some mask =>
@@ -380,11 +388,15 @@ def runObs : Config → CState Row → Nat → List DOp → CState Row × List S
     | .error => (rest.1, rest.2.1, k :: rest.2.2.1, rest.2.2.2)
     | .unit => rest
 
+/-- `has_non_specialized_filter_columns`: some column is neither primitive nor a byte view -/
 def nonSpecializedOf (ty : String) : Option Bool :=
-  match ty with
-  | "i32" | "i64" | "sv" | "i32+i64" | "i32+sv" | "dec" | "i32+dec" => some false
-  | "utf8" | "i32+utf8" | "bool" | "dict" | "dicts" | "dicti8" | "dictu8" | "dictu16" | "dictu64" | "dictp" | "llist" | "lv" | "map" | "ree" | "sunion" | "dunion" | "list" | "struct" | "fsb" => some true
-  | _ => none
+  let known := ["i32", "i64", "f64", "ts", "dec", "sv", "bv", "bool", "utf8", "lutf8", "bin", "lbin", "dict", "dicts",
+    "dicti8", "dictu8", "dictu16", "dictu64", "dictp", "fsb", "list", "llist", "lv", "fsl", "map", "struct", "ree",
+    "sunion", "dunion"]
+  let cols := ty.splitOn "+"
+  if cols.all (fun c => known.contains c) then
+    some (cols.any (fun c => !(["i32", "i64", "f64", "ts", "dec", "sv", "bv"].contains c)))
+  else none
 
 def handleCoalesce (ty target limit ops : String) : String :=
   match nonSpecializedOf ty, target.toNat?, (if limit = "-" then some none else limit.toNat?.map some),
